@@ -10,7 +10,7 @@ namespace Pm.Daemon.TwoRun.ExX
 open Pm Pm.Client Pm.Daemon Pm.Daemon.Isolation Pm.Daemon.TwoRun
 
 /-- a pass in which nothing happens -/
-def p0 : PassIn := { now := 3500, acc := 0, con := 0, soe := 0, envs := [] }
+def p0 : PassIn := { now := 3500, acc := 0, con := [0], soe := [0], envs := [] }
 /-- first run: nothing; then the device answers client 1's action (regex answers fed before this pass); then pass B of
     `Pm/TwoRunEx.lean` (a third client connects, client 1 asks again, client 2 sends `help`) -/
 def qs : List PassX := [⟨p0, []⟩, ⟨Ex.pA, Two.xs4⟩, ⟨Ex.pB, []⟩]
